@@ -46,10 +46,10 @@ ASSUMPTIONS = [
     "tolerances: 64 x 2^-23 x depth x (max spacing / min spacing) x max|u| for vector conversions; interpolating operations: 64 x 2^-23 x depth x value scale x (cond + n/2 [+ |world position| / min spacing when sampling between grids]) = coordinate rounding times the steepest slope",
     "warp_image is only judged with the image on the same grid as the flow field (the API ignores the image grid)",
     "zeros and border padding only (continuous in the coordinates, identical for both align_corners conventions); linear interpolation",
-    "CPU float32; D in {2,3}; sizes <= 9 per axis; path depth 3 (quick) / 4 (thorough)",
+    "CPU float32; D in {2,3}; sizes <= 9 per axis; path depth 3 (quick) / 4 (thorough, forms single and perfield2; 3 for the others)",
 ]
-MIN_NONTRIVIAL = {"quick": 12000, "thorough": 100000}
-MIN_OUTCOMES = {"quick": 12000, "thorough": 100000}
+MIN_NONTRIVIAL = {"quick": 12000, "thorough": 60000}
+MIN_OUTCOMES = {"quick": 12000, "thorough": 60000}
 MIN_SUB_TRACES = {"axes": 20000, "warp": 800, "sample": 3000, "exp": 1000, "sitk": 300, "file": 300, "helpers": 800}
 
 EPS32 = 2.0 ** -23
@@ -144,8 +144,9 @@ def configs(tier: str, seed: int):
     return out
 
 
-def depth_of(tier: str) -> int:
-    return 3 if tier == "quick" else 4
+def depth_of(tier: str, form: str = "single") -> int:
+    """axes() path depth: 3; in the thorough tier 4 for the FlowField and the per-field-grid batch form."""
+    return 4 if (tier == "thorough" and form in ("single", "perfield2")) else 3
 
 
 def bounds(tier):
@@ -155,8 +156,8 @@ def bounds(tier):
         "grids_per_D": len(geometries(2, tier, 0)) * 2,
         "batch_forms": list(forms(tier)),
         "field_kinds": list(field_kinds(tier)),
-        "axes_path_depth": depth_of(tier),
-        "axes_paths_per_configuration": 4 ** (depth_of(tier) + 1),
+        "axes_path_depth": {f: depth_of(tier, f) for f in forms(tier)},
+        "axes_paths_per_configuration": {f: 4 ** (depth_of(tier, f) + 1) for f in forms(tier)},
         "exp_menu": [list(x) for x in exp_menu(tier)],
         "sample_targets": target_names(tier),
         "paddings": ["default(zeros)", "border"],
@@ -357,6 +358,15 @@ def _flow_meta(rec: Rec, pre: str, ctx: Ctx, res, a: str, grids, expect_single: 
 # ---------------------------------------------------------------------------
 # sub-check: axes paths
 def axes_node(rec: Rec, ctx: Ctx, a0: str, F0, grids, den, prev, a_prev: str, a: str, depth: int, direct=None):
+    """Execute one edge and judge the node; a result that cannot even be observed is a violation, never a crash."""
+    try:
+        return _axes_node(rec, ctx, a0, F0, grids, den, prev, a_prev, a, depth, direct)
+    except Exception as e:  # noqa: BLE001 - e.g. a mutated tree returning an object without tensor()/grid()
+        rec.add(f"C10/axes/{ctx.form}/{a_prev}->{a}/unobservable/raises={type(e).__name__}", exc_text(e))
+        return None
+
+
+def _axes_node(rec: Rec, ctx: Ctx, a0: str, F0, grids, den, prev, a_prev: str, a: str, depth: int, direct=None):
     """Execute one edge prev.axes(a) and judge the reached node. Returns the new object or None."""
     from deepali.core.grid import Axes
 
@@ -1029,6 +1039,15 @@ def op_cases(ctx: Ctx, tier: str):
 
 
 def run_op(ctx: Ctx, sub: str, p: dict, starts=AXES) -> Rec:
+    try:
+        return _run_op(ctx, sub, p, starts)
+    except Exception as e:  # noqa: BLE001 - result of the real call could not be observed at all
+        rec = Rec()
+        rec.add(f"C10/{sub}/{ctx.form}/unobservable/raises={type(e).__name__}", exc_text(e))
+        return rec
+
+
+def _run_op(ctx: Ctx, sub: str, p: dict, starts=AXES) -> Rec:
     if sub == "warp":
         return run_warp(ctx, p["img"], p["pad"], starts)
     if sub == "sample":
@@ -1055,7 +1074,7 @@ def run_shard(shard) -> Acc:
     tier = shard["tier"]
     cfg = configs(tier, shard["seed"])[shard["i"]]
     ctx = Ctx(cfg)
-    explore_axes(acc, ctx, depth_of(tier))
+    explore_axes(acc, ctx, depth_of(tier, cfg["form"]))
     brief = {k: cfg[k] for k in ("D", "gname", "form", "fkind")}
     for sub, p in op_cases(ctx, tier):
         rec = run_op(ctx, sub, p)
